@@ -903,6 +903,23 @@ def m_dir(ex, st, fr, args, kwargs):
 
 
 def m_getattr3(ex, st, fr, args, kwargs):
+    from .values import VNotImplemented
+    if len(args) in (2, 3) and isinstance(args[1], VT) and tm.is_const(args[1].t) and args[1].t.sort == STR and not (
+            isinstance(args[0], VClass) and hasattr(args[0], "sym")):
+        name = tm.cval(args[1].t)
+        obj = args[0]
+        if isinstance(obj, (VNotImplemented, VNone)):
+            # the NotImplemented / None singletons have the attributes of `object` only
+            if hasattr(NotImplemented if isinstance(obj, VNotImplemented) else None, name):
+                raise Unsupported("getattr(%s, %r)" % (type(obj).__name__, name))
+            if len(args) == 3:
+                return [(st, "ok", args[2])]
+            return ex.raise_(st, "AttributeError", VT(tm.S("object has no attribute '%s'" % name)))
+        if isinstance(obj, VClass) and name == "__name__":
+            return ex.getattr(obj, name, st, fr)
+        if isinstance(obj, VObj) and st.get(obj, name) is not None:
+            return [(st, "ok", st.get(obj, name))]
+        raise Unsupported("getattr(%r, %r%s)" % (obj, name, ", default" if len(args) == 3 else ""))
     if len(args) != 3 or not (isinstance(args[0], VClass) and hasattr(args[0], "sym")) or not (
             isinstance(args[1], VT) and args[1].t.sort == STR) or not isinstance(args[2], VNone):
         raise Unsupported("getattr%r" % (tuple(args),))
